@@ -278,6 +278,11 @@ func (runInfo *runInfoStruct) invokeDerefExpr(expr *ast.DerefExpr) {
 		runInfo.rv = nilValue
 		return
 	}
+	if isTypeValue(runInfo.rv) {
+		runInfo.err = newStringError(expr, "type cannot be dereferenced")
+		runInfo.rv = nilValue
+		return
+	}
 	runInfo.rv = runInfo.rv.Elem()
 }
 
